@@ -37,6 +37,9 @@ func genC16(g *prng.R) c16Case {
 	sc := outboxScenario(nil, nil)
 	sc.Cfg.ClockOffsetMin = 0
 	sc.Cfg.ClockUnix = 1500000000 + int64(g.Intn(400000000))
+	if g.Bool() {
+		sc.Cfg.ClockNanos = []int{1, 499999999, 500000000, 999999999, g.Intn(1000000000)}[g.Intn(5)]
+	}
 	cs.Sc = sc
 	act := M{"type": typ, "actor": alice(), "to": carol()}
 	n := g.Range(1, 3)
